@@ -107,3 +107,13 @@ impl EdgeList {
         forall|p: (usize, usize)| #[trigger] arcs@.contains(p) == exists|i: int| 0 <= i < it1.index() && it1.seq()[i] == p,
     @*/
 }
+
+//@file src/repr/adjacency_list/mod.rs
+/*@struct name=ArcsIterator @*/
+
+impl<'a> ArcsIterator<'a> {
+    /*@fn impl=ArcsIterator trait=Iterator name=next subst=Self::Item=>(usize,usize)
+    ensures
+        true,
+    @*/
+}
